@@ -20,6 +20,8 @@ func joinRenderer(args []string) (string, error) {
 	return "(joinLenPrefix [" + strings.Join(keep, ", ") + "])", nil
 }
 
+func init() { register("Keys", genKeys) }
+
 // genKeys translates every key builder of fsm/key.go and store/indexer.go (C10, C19).
 func genKeys() (string, error) {
 	var b strings.Builder
